@@ -401,8 +401,28 @@ func (a *Analysis) CheckC14(rep *Report) {
 			data = &Val{Op: "param", ID: 1, Name: fn.Params[1].Name(), Type: fn.Params[1].Type()}
 		}
 		okPaths := 0
+		// shortcuts: a success path taken only for an empty (or absent) input that returns the constant the full
+		// computation yields for no bytes (the accumulator's initial value, folded through the same reductions)
+		shortcut := map[*Path]bool{}
+		var mainRet *Val
 		for _, p := range paths {
-			if pathKind(p) == "ok" && !p.Panic {
+			if pathKind(p) == "ok" && !p.Panic && len(p.Ret) == 1 && !emptyInputPath(p, data) {
+				mainRet = p.Ret[0]
+			}
+		}
+		if mainRet != nil {
+			if want, ok := evalEmpty(mainRet); ok {
+				for _, p := range paths {
+					if pathKind(p) == "ok" && !p.Panic && len(p.Ret) == 1 && emptyInputPath(p, data) {
+						if got, ok2 := evalEmpty(p.Ret[0]); ok2 && constant.Compare(got, token.EQL, want) && !hasEvent([]*Path{p}, func(e *Event) bool { return e.Kind == EvRep }) {
+							shortcut[p] = true
+						}
+					}
+				}
+			}
+		}
+		for _, p := range paths {
+			if pathKind(p) == "ok" && !p.Panic && !shortcut[p] {
 				okPaths++
 			}
 			walkEvents(p.Events, func(e *Event, _ int) {
@@ -457,7 +477,7 @@ func (a *Analysis) CheckC14(rep *Report) {
 		class := map[string]string{"SSE_BIN": "bytesum", "SZSE_BIN": "bytesum", "CRC16": "crc16", "CRC32": "crc32"}[svc.Name]
 		// H3 whole input
 		for _, p := range paths {
-			if pathKind(p) != "ok" {
+			if pathKind(p) != "ok" || shortcut[p] {
 				continue
 			}
 			whole, why := wholeInput(p, data, class == "crc32")
@@ -592,4 +612,109 @@ func wholeInput(p *Path, data *Val, crc32 bool) (bool, string) {
 		return false, "the loop does not index the bytes 0,1,2,… in order"
 	}
 	return false, "no loop ranges over exactly len(data.Bytes()) bytes"
+}
+
+// emptyInputPath: the path is taken only when the input holds no bytes (Len() == 0, len(Bytes()) == 0, or no buffer).
+func emptyInputPath(p *Path, data *Val) bool {
+	for _, c := range p.Conds {
+		v := c.V
+		if v.Op != "binop" || len(v.Args) != 2 {
+			continue
+		}
+		for side := 0; side < 2; side++ {
+			x, k := stripCT(v.Args[side]), v.Args[1-side]
+			for x.Op == "conv" {
+				x = stripCT(x.Args[0])
+			}
+			isLen := x.Op == "buflen" || (x.Op == "len" && len(x.Args) == 1 && stripCT(x.Args[0]).Op == "bufbytes")
+			if isLen {
+				n, isC := k.Int64()
+				if !isC {
+					continue
+				}
+				op := v.Name
+				if side == 1 { // k op len  ->  len op' k
+					op = map[string]string{"<": ">", ">": "<", "<=": ">=", ">=": "<=", "==": "==", "!=": "!="}[op]
+				}
+				if !c.Taken {
+					op = map[string]string{"<": ">=", ">": "<=", "<=": ">", ">=": "<", "==": "!=", "!=": "=="}[op]
+				}
+				if (op == "==" && n == 0) || (op == "<=" && n == 0) || (op == "<" && n == 1) {
+					return true
+				}
+			}
+			if data != nil && stripIface(x).Key() == data.Key() && k.IsNilConst() && ((v.Name == "==") == c.Taken) {
+				return true
+			}
+		}
+	}
+	return false
+}
+
+// evalEmpty: the constant a result term denotes when the input holds no bytes – loops over the input run zero times
+// (an accumulator keeps its initial value), hash/crc32 of nothing is its seed.
+func evalEmpty(v *Val) (constant.Value, bool) {
+	v = stripCT(v)
+	if v == nil {
+		return nil, false
+	}
+	switch v.Op {
+	case "const":
+		if v.C != nil && v.C.Kind() == constant.Int {
+			return v.C, true
+		}
+	case "loopout", "loopvar":
+		if len(v.Args) >= 1 {
+			return evalEmpty(v.Args[0])
+		}
+	case "conv":
+		c, ok := evalEmpty(v.Args[0])
+		if !ok || v.Type == nil {
+			return nil, false
+		}
+		b, isB := v.Type.Underlying().(*types.Basic)
+		if !isB || b.Info()&types.IsInteger == 0 {
+			return nil, false
+		}
+		bits, unsigned := intBits(b)
+		if bits == 0 {
+			bits = 64
+		}
+		mod := constant.Shift(constant.MakeInt64(1), token.SHL, uint(bits))
+		r := constant.BinaryOp(c, token.REM, mod)
+		if constant.Sign(r) < 0 {
+			r = constant.BinaryOp(r, token.ADD, mod)
+		}
+		if !unsigned {
+			half := constant.Shift(constant.MakeInt64(1), token.SHL, uint(bits-1))
+			if constant.Compare(r, token.GEQ, half) {
+				r = constant.BinaryOp(r, token.SUB, mod)
+			}
+		}
+		return r, true
+	case "binop":
+		a, ok1 := evalEmpty(v.Args[0])
+		b, ok2 := evalEmpty(v.Args[1])
+		if !ok1 || !ok2 {
+			return nil, false
+		}
+		tok := map[string]token.Token{"+": token.ADD, "-": token.SUB, "*": token.MUL, "&": token.AND, "|": token.OR, "^": token.XOR, "%": token.REM}[v.Name]
+		if tok == token.ILLEGAL {
+			return nil, false
+		}
+		if tok == token.REM && constant.Sign(b) == 0 {
+			return nil, false
+		}
+		return constant.BinaryOp(a, tok, b), true
+	case "call":
+		switch v.Name {
+		case "hash/crc32.ChecksumIEEE", "hash/crc32.Checksum":
+			return constant.MakeInt64(0), true
+		case "hash/crc32.Update":
+			if len(v.Args) == 3 {
+				return evalEmpty(v.Args[0])
+			}
+		}
+	}
+	return nil, false
 }
